@@ -1,10 +1,10 @@
 package main
 
 import (
-	"runtime"
 	"bytes"
 	"encoding/hex"
 	"fmt"
+	"runtime"
 	"strings"
 
 	"github.com/cosmos/cosmos-proto/internal/verifh/vschema"
@@ -188,6 +188,7 @@ func runCodec(cfg *Cfg) {
 		}
 		en := enumNums(t)
 		boundaryPass(out, t, cfg.Tier, modelOK)
+		reusePass(out, t, r, cfg.Tier, en)
 		for c := 0; c < perTarget; c++ {
 			g := &vval.GenOpts{MaxDepth: 1 + r.Intn(4), Unknown: r.Chance(50), NilJunk: r.Chance(12), BadUTF8: r.Chance(8), BigMaps: r.Chance(10), EnumNums: en}
 			v := g.Message(r, t.S, 0, 0)
@@ -289,6 +290,12 @@ func codecCase(out *Out, t *Target, v *vval.Val, vs string, junk, u8, modelOK bo
 		}
 		if !bytes.Equal(got[:5], []byte("PREFX")) || !bytes.Equal(got[5:], detBytes) {
 			out.Violate("C04", "append-prefix", fmt.Sprintf("MarshalAppend(cap+%d) result differs", capExtra), replay("enc"))
+			if len(got) >= 5 && bytes.Equal(got[:5], []byte("PREFX")) {
+				// the prefix is intact but the encoding written behind it is not the encoding of the value: the bytes depend
+				// on what the spare capacity of the caller's buffer held
+				out.Violate("C02", "append-bytes-differ", fmt.Sprintf("deterministic MarshalAppend(cap+%d) wrote %s, Marshal gives %s", capExtra, hexs(got[5:]), hexs(detBytes)), replay("enc"))
+				out.Violate("C05", "append-bytes-differ", fmt.Sprintf("deterministic bytes depend on the spare capacity of the destination buffer (cap+%d)", capExtra), replay("enc"))
+			}
 			break
 		}
 	}
@@ -358,11 +365,13 @@ func codecCase(out *Out, t *Target, v *vval.Val, vs string, junk, u8, modelOK bo
 	}
 }
 
-func validUTF8(b []byte) bool { return vval.ValidUTF8(b) }
+func validUTF8(b []byte) bool                                    { return vval.ValidUTF8(b) }
 func normalize(s *vschema.Schema, mi int, v *vval.Val) *vval.Val { return vval.Normalize(s, mi, v) }
-func permuteMaps(v *vval.Val, variant int) *vval.Val { return vval.PermuteMaps(v, variant) }
+func permuteMaps(v *vval.Val, variant int) *vval.Val             { return vval.PermuteMaps(v, variant) }
 
-func isSNaN32(n uint64) bool { return n&0x7f800000 == 0x7f800000 && n&0x007fffff != 0 && n&0x00400000 == 0 }
+func isSNaN32(n uint64) bool {
+	return n&0x7f800000 == 0x7f800000 && n&0x007fffff != 0 && n&0x00400000 == 0
+}
 
 func hasSNaN32(s *vschema.Schema, mi int, v *vval.Val) bool {
 	if v.T != vval.Msg {
@@ -461,4 +470,82 @@ func hasNaN(s *vschema.Schema, mi int, v *vval.Val) bool {
 		}
 		return false
 	})
+}
+
+// reusePass: Size / Marshal must be functions of the CURRENT value of a message object, whatever the object held
+// (and whatever was computed from it) before. An object is built from v1 and sized / marshalled in every mode; it
+// is then changed IN PLACE (vval.AssignInPlace: no message object that exists on both sides is replaced) into v2 —
+// the empty value, an unrelated value, v1 with its children emptied — and must size and marshal exactly like a
+// fresh object holding v2 (and like the reference). State kept between calls (a size cache, a memoised encoding)
+// shows as a difference here.
+func reusePass(out *Out, t *Target, r *vschema.Rand, tier string, en []int32) {
+	n := 10
+	if tier == "thorough" {
+		n = 150
+	}
+	for c := 0; c < n; c++ {
+		g := &vval.GenOpts{MaxDepth: 2 + r.Intn(3), Unknown: r.Chance(30), BigMaps: r.Chance(10), EnumNums: en}
+		v1 := g.Message(r, t.S, 0, 0)
+		var v2 *vval.Val
+		kind := c % 4
+		switch kind {
+		case 0:
+			v2 = vval.Empty(t.S, 0)
+		case 1:
+			v2 = vval.EmptyChildren(t.S, 0, v1)
+		case 2:
+			v2 = g.Message(r, t.S, 0, 0)
+		default:
+			v2 = vval.EmptyChildren(t.S, 0, g.Message(r, t.S, 0, 0))
+		}
+		if !utf8ok(t.S, 0, v1) || !utf8ok(t.S, 0, v2) {
+			continue
+		}
+		obj := t.B.ToMessage(0, v1)
+		replay := t.S.Line() + "\nreuse " + t.Full + " first " + v1.String() + " then-in-place " + v2.String()
+		if p, pm := guard(func() {
+			_ = proto.Size(obj)
+			_, _ = proto.MarshalOptions{Deterministic: true}.Marshal(obj)
+			_, _ = proto.Marshal(obj)
+			_, _ = proto.MarshalOptions{Deterministic: true}.MarshalAppend(make([]byte, 3, 64), obj)
+		}); p {
+			continue // reported by the ordinary cases
+		} else {
+			_ = pm
+		}
+		vval.AssignInPlace(obj, t.B.ToMessage(0, v2))
+		if vval.Canon(t.S, 0, t.B.FromMessage(0, obj)).String() != vval.Canon(t.S, 0, v2).String() {
+			out.Violate("HARNESS", "assign-in-place", "AssignInPlace did not produce the target value for "+t.Full, replay)
+			continue
+		}
+		fresh := t.B.ToMessage(0, v2)
+		var sz, fsz int
+		var bs, fbs, abs []byte
+		var err, ferr error
+		out.Case("reuse:"+t.Full+v1.String()+v2.String(), true)
+		out.Count("reuse_cases")
+		if p, pm := guard(func() {
+			sz = proto.Size(obj)
+			bs, err = proto.MarshalOptions{Deterministic: true}.Marshal(obj)
+			abs, _ = proto.MarshalOptions{Deterministic: true}.MarshalAppend([]byte("PRE"), obj)
+		}); p {
+			out.Violate("C04", "reuse-panic", "Size/Marshal of an object changed in place panicked: "+firstLine(pm), replay)
+			out.Violate("C01", "reuse-panic", "Marshal of an object changed in place panicked: "+firstLine(pm), replay)
+			continue
+		}
+		if p, _ := guard(func() {
+			fsz = proto.Size(fresh)
+			fbs, ferr = proto.MarshalOptions{Deterministic: true}.Marshal(fresh)
+		}); p || err != nil || ferr != nil {
+			continue
+		}
+		if sz != fsz || sz != len(bs) {
+			out.Violate("C04", "reuse-size", fmt.Sprintf("object changed in place: Size=%d, len(Marshal)=%d; a fresh object holding the same value: Size=%d", sz, len(bs), fsz), replay)
+		}
+		if !bytes.Equal(bs, fbs) || !bytes.Equal(abs, append([]byte("PRE"), fbs...)) {
+			out.Violate("C04", "reuse-marshal", "object changed in place marshals differently from a fresh object holding the same value: "+hexs(bs)+" vs "+hexs(fbs), replay)
+			out.Violate("C05", "reuse-marshal", "deterministic bytes depend on what the object held before: "+hexs(bs)+" vs "+hexs(fbs), replay)
+			out.Violate("C02", "reuse-marshal", "deterministic bytes of an object changed in place differ from those of the value: "+hexs(bs)+" vs "+hexs(fbs), replay)
+		}
+	}
 }
